@@ -3,6 +3,7 @@ package main
 import (
 	"fmt"
 	"go/constant"
+	"go/token"
 	"go/types"
 	"math/big"
 	"strconv"
@@ -914,6 +915,9 @@ func (c *SpecCtx) call(e *ECall) (Term, error) {
 		if err != nil {
 			return Term{}, err
 		}
+		if len(e.Args) == 3 {
+			x.T = c.typeArg(e.Args[2])
+		}
 		if x.T == nil {
 			return Term{}, fmt.Errorf("chelem of untyped channel")
 		}
@@ -1022,6 +1026,15 @@ func (c *SpecCtx) convertInt(x Term, t types.Type, tw int, ts bool) (Term, error
 
 // typeArg resolves a type written in a spec (pkg.Name or Name of the contract's package).
 func (c *SpecCtx) typeArg(e Expr) types.Type {
+	if s, ok := e.(*EStr); ok {
+		// a Go type expression, evaluated in the scope of the contract's package
+		if p := c.vc.w.PkgByPath[longPkg(c.pkg)]; p != nil && p.Types != nil {
+			if tv, err := types.Eval(c.vc.w.Fset, p.Types, token.NoPos, unquote(s.Val)); err == nil && tv.IsType() {
+				return tv.Type
+			}
+		}
+		return nil
+	}
 	name := exprName(e)
 	if name == "" {
 		return nil
